@@ -365,6 +365,26 @@ func runC17(c *vf.Case) {
 			shape.WriteString("c")
 		}
 	}
+	if r.Chance(1, 3) {
+		// a session that starts with the blocking API (a login sent right after the handshake) and goes on asynchronously
+		payload := asciiBytes(r, []int{0, 5, 126}[r.Intn(3)])
+		var err error
+		if r.Bool() {
+			f := s.AcquireFrame()
+			f.SetFIN().SetText().SetPayload(payload)
+			err = s.WriteFrame(f)
+			appFrames = append(appFrames, c16Expect{wsref.OpText, true, payload, "blocking WriteFrame (login)"})
+		} else {
+			err = s.Write(payload, websocket.TypeBinary)
+			appFrames = append(appFrames, c16Expect{wsref.OpBinary, true, payload, "blocking Write (login)"})
+		}
+		c.Logf("  blocking login write of %d bytes -> %v", len(payload), err)
+		if err != nil {
+			c.Failf("blocking-write-failed-on-healthy-transport", "blocking write of %d bytes right after the handshake: %v", len(payload), err)
+		}
+		shape.WriteString("L")
+		c.Count("sessions_starting_with_a_blocking_write", 1)
+	}
 	steps := r.Range(6, 40)
 	for st := 0; st < steps && !c.Failed() && !peerClosed; st++ {
 		switch k := r.Intn(12); {
